@@ -305,6 +305,14 @@ def check_case(case):
             V(kind, "wrong count", "mask has %d ones, stated %d" % (int(m.sum()), sum(ref)))
         if m.dtype not in (torch.uint8, torch.bool):
             V(kind, "dtype", "mask dtype %s" % m.dtype)
+        if kind in ("alternating", "mid_split"):
+            # the caller owns the returned mask (nflows itself flips masks in place between coupling layers): editing it must not
+            # change what the next call with the same arguments returns
+            with torch.no_grad():
+                m.copy_(1 - m)
+            m2 = tu.create_alternating_binary_mask(f, even=case["even"]) if kind == "alternating" else tu.create_mid_split_binary_mask(f)
+            if m2.tolist() != ref:
+                V(kind, "result shared between calls", "%s mask(features=%d): after the first result was flipped in place, the next call returns %s, reference %s" % (kind, f, m2.tolist(), ref))
         return out
 
     if fn == "temperature":
